@@ -1733,43 +1733,10 @@ class multislater(wave_function_auto):
     @partial(jit, static_argnums=0)
     def _calc_overlap_restricted(self, walker: jax.Array, wave_data: dict) -> complex:
         """Calclulates < psi_T | walker > efficiently using Wick's theorem"""
-        Acre, Ades, Bcre, Bdes, coeff, ref_det = (
-            wave_data["Acre"],
-            wave_data["Ades"],
-            wave_data["Bcre"],
-            wave_data["Bdes"],
-            wave_data["coeff"],
-            wave_data["ref_det"],
+        # the up and down reference occupations and electron counts may differ
+        return self._calc_overlap(
+            walker[:, : self.nelec[0]], walker[:, : self.nelec[1]], wave_data
         )
-        green = self._calc_green_restricted(walker, wave_data)
-
-        # overlap with the reference determinant
-        overlap_0 = (
-            jnp.linalg.det(walker[jnp.nonzero(ref_det[0], size=self.nelec[0])[0], :])
-            ** 2
-        )
-
-        # overlap / overlap_0
-        overlap = coeff[(0, 0)] + 0.0j
-
-        for i in range(1, self.max_excitation + 1):
-            overlap += vmap(self._det_overlap, in_axes=(None, 0, 0))(
-                green, Acre[(i, 0)], Ades[(i, 0)]
-            ).dot(coeff[(i, 0)])
-            overlap += vmap(self._det_overlap, in_axes=(None, 0, 0))(
-                green, Bcre[(0, i)], Bdes[(0, i)]
-            ).dot(coeff[(0, i)])
-
-            for j in range(1, self.max_excitation - i + 1):
-                overlap_a = vmap(self._det_overlap, in_axes=(None, 0, 0))(
-                    green, Acre[(i, j)], Ades[(i, j)]
-                )
-                overlap_b = vmap(self._det_overlap, in_axes=(None, 0, 0))(
-                    green, Bcre[(i, j)], Bdes[(i, j)]
-                )
-                overlap += (overlap_a * overlap_b) @ coeff[(i, j)]
-
-        return (overlap * overlap_0)[0]
 
     @partial(jit, static_argnums=0)
     def _calc_green(
